@@ -146,6 +146,7 @@ def run(ck):
     r3_counting(ck, w)
     r4_canonical(ck, w)
     r5_dont_care(ck, w)
+    r6_scalar_width(ck, w)
     from . import c03
     c03.pi_count_exact(ck, w, 'C08.R3')
 
@@ -267,3 +268,27 @@ def r5_dont_care(ck, w):
     ck.record('C08.R5', 'AssignedForeignPoint::as_public_input:masks-coordinates', ok, 'both coordinates meet the identity flag in a constraint',
               f'ForeignEccChip::as_public_input exposes the coordinate cells of a point without masking them by is_id (x meets the flag: {met["x"]}, y meets the '
               f'flag: {met["y"]}): for the identity the prover chooses x and y freely, so many public-input vectors are accepted for one value', hirq.fn_loc(f))
+
+
+def r6_scalar_width(ck, w):
+    """both encoders of a bit-vector type chunk the SAME number of bits"""
+    ck.rule('C08.R6', 'width agreement of the two encoders of AssignedScalarOfNativeCurve: the off-circuit encoder chunks exactly NUM_BITS_SUBGROUP bits '
+                      '(`to_bits_le(Some(C::NUM_BITS_SUBGROUP))`), the in-circuit one must chunk the same number of bits (refer to the same constant: truncate, pad '
+                      'or assert).  Chunking however many bits the representation happens to carry (`assigned.0.chunks(..)`: 256 bits after '
+                      'scalar_from_le_bytes of 32 bytes, 255 after a conversion from a native element) exposes 2 field elements where the verifier-side formatter '
+                      'produces 1, and binds the raw integer instead of its reduction modulo the group order')
+    off = [f for f in w.all_fns(['circuits']) if f['name'] == 'as_public_input' and f['file'].endswith('ecc/native/edwards_chip.rs')
+           and 'AssignedScalarOfNativeCurve' in f['_xid'] and not any(b['n'] == 'layouter' for p in f['params'] for b in pat_bindings(p))]
+    inc = [f for f in w.all_fns(['circuits']) if f['name'] == 'as_public_input' and f['file'].endswith('ecc/native/edwards_chip.rs')
+           and 'AssignedScalarOfNativeCurve' in f['_xid'] and any(b['n'] == 'layouter' for p in f['params'] for b in pat_bindings(p))]
+    if not off or not inc:
+        ck.bad('C08.R6', 'AssignedScalarOfNativeCurve:anchor', f'encoder pair not found (off-circuit: {len(off)}, in-circuit: {len(inc)})')
+        return
+
+    def width_consts(f):
+        return {(x.get('p') or '').rsplit('::', 1)[-1] for x in walk(f['body']) if x.get('k') == 'path' and 'NUM_BITS' in (x.get('p') or '')}
+    wo, wi = width_consts(off[0]), width_consts(inc[0])
+    ck.record('C08.R6', 'AssignedScalarOfNativeCurve:encoders-agree-on-width', wo <= wi, f'both encoders refer to {sorted(wo)}',
+              f'the off-circuit encoder of AssignedScalarOfNativeCurve fixes the width with {sorted(wo - wi)} but the in-circuit encoder (EccChip::as_public_input) chunks '
+              f'all the bits of the representation (constants it mentions: {sorted(wi)}): the two produce different numbers of public inputs for scalars built from '
+              f'32 bytes or converted from a native element', hirq.fn_loc(inc[0]))
